@@ -19,6 +19,17 @@ func (r *result) doCause(ctx context.Context, wg *sync.WaitGroup) {
 	c := &r.c
 	w := r.w
 	e := r.ep(c.By)
+	if c.Phase == "edge" {
+		// the calls were made an instant ago; the one that hands out the connection is the caller itself
+		for _, x := range []*endpoint{r.C, r.S} {
+			x.pendingAtCause = nil
+			for _, n := range x.pending() {
+				if n != "Dial" && n != "ln.Accept#1" {
+					x.pendingAtCause = append(x.pendingAtCause, n)
+				}
+			}
+		}
+	}
 	switch c.Cause {
 	case "close", "cancel":
 		// (a cancelled dial context after the handshake must have no effect; the case then ends by a local close)
@@ -167,6 +178,46 @@ func forgeFrames(victim string, variant int) (payload []byte, code uint64, name 
 	}
 }
 
+// trickle black-holes nothing itself (the network already is): it plays an attacker who feeds the client valid
+// Initial packets (Initial keys are public) containing PING, so that the client keeps receiving packets while the
+// handshake makes no progress. The client must then give up with HandshakeTimeoutError after 2*HandshakeIdleTimeout.
+func (r *result) trickle(every time.Duration) {
+	w := r.w
+	time.Sleep(r.rtt/2 + time.Millisecond)
+	var first *sim.Packet
+	for _, rec := range w.Router.Log {
+		if rec.Dir != "c2s" || rec.Forged {
+			continue
+		}
+		for _, p := range pktsOf(rec) {
+			if p.Kind == "initial" && first == nil {
+				first = p
+			}
+		}
+	}
+	if first == nil {
+		r.harness = "trickle: no client Initial observed"
+		return
+	}
+	_, sk := refcrypto.InitialKeys(refcrypto.V1, first.DCID)
+	scid := []byte{0xc1, 0x70, 0x0f, 0x0e, 0x0d, 0x0c, 0x0b, 0x0a}
+	for pn := uint64(0); pn < 200; pn++ {
+		r.C.mu.Lock()
+		done := r.dialDone
+		r.C.mu.Unlock()
+		if done {
+			return
+		}
+		payload := make([]byte, 40)
+		payload[0] = 0x01 // PING, then PADDING
+		h := refwire.LongHeader{Kind: refwire.LongInitial, Version: refwire.Version1, DCID: first.SCID, SCID: scid, Length: uint64(2 + len(payload) + 16)}
+		hdr := refwire.AppendLongHeader(nil, h, pn, 2)
+		w.Router.Inject(sim.S2C, sim.ServerAddr, sim.ClientAddr, refcrypto.Protect(sk, hdr, len(hdr)-2, 2, pn, payload), "trickle")
+		r.trickled++
+		time.Sleep(every)
+	}
+}
+
 func (r *result) forge(victim string, variant int) (data []byte, code uint64, name string, skip string) {
 	w := r.w
 	dir := simDir(dirTo(victim))
@@ -223,6 +274,15 @@ func (r *result) forge(victim string, variant int) (data []byte, code uint64, na
 	}
 	if keys == nil {
 		return nil, 0, "", "could not re-derive the 1-RTT keys"
+	}
+	if variant%len(forgeNames) == 5 {
+		// the flow-control violation needs a stream of the peer that the victim has already accepted (a STREAM frame
+		// for a new stream would first hand that stream to a blocked AcceptStream)
+		p := r.peer(r.ep(victim))
+		visible := (has(p.side.Blocked, "write") && !p.side.WriteUni) || (r.c.Phase == "transfer" && r.c.XferDir == p.name && !r.c.XferUni)
+		if !visible {
+			variant = 6
+		}
 	}
 	payload, code, name := forgeFrames(victim, variant)
 	pn := maxPN + 3
